@@ -60,6 +60,24 @@ def parseKind (s : String) : Except String Kind :=
   | "image" => pure .image
   | _ => throw s!"unknown kind {s}"
 
+def parseGItem (j : Json) : Except String GItem := do
+  let name ← getStr j "name"
+  let vt ← getStr j "vt"
+  let rel ← getStr j "rel"
+  let value ← getStr j "value"
+  let graphic ← getStr j "graphic"
+  let ref ← match j.getObjVal? "ref" with
+    | .error _ => pure none
+    | .ok .null => pure none
+    | .ok v => some <$> parseRef16 v
+  pure { name := name, vt := vt, rel := rel, value := value, graphic := graphic, ref := ref, kids := [] }
+
+def itemList (j : Json) (k : String) : Except String (List GItem) :=
+  match j.getObjVal? k with
+  | .error _ => pure []
+  | .ok .null => pure []
+  | .ok v => do let a ← v.getArr?; a.toList.mapM parseGItem
+
 def parseParams (j : Json) : Except String Params := do
   let kind ← parseKind (← getStr j "kind")
   let tu ← getStr j "tracking_uid"
@@ -81,7 +99,9 @@ def parseParams (j : Json) : Except String Params := do
   let purpose ← optCode j "geometric_purpose"
   let ref ← parseRoi (← j.getObjVal? "ref")
   let template ← getBool j "template"
-  pure ⟨kind, tu, ti, fc, ft, method, sites, ms, es, purpose, ref, template⟩
+  let ctxA ← itemList j "ctx_a"
+  let ctxB ← itemList j "ctx_b"
+  pure ⟨kind, tu, ti, fc, ft, method, sites, ms, es, purpose, ref, template, ctxA, ctxB⟩
 
 def parseFilters (j : Json) : Except String Filters := do
   let tu ← optStr16 j "tracking_uid"
@@ -131,7 +151,9 @@ def handlers : List (String × Handler) := [
     let idx := (List.range ps.length).filter (fun i => match ps[i]? with
       | some p => specKind k p && specFilters k p f
       | none => false)
-    pure (okJson (Json.mkObj [("spec", natsToJson idx), ("consistent", Json.bool (ps.all Params.consistent))]))),
+    pure (okJson (Json.mkObj [("spec", natsToJson idx), ("consistent", Json.bool (ps.all Params.consistent)),
+      ("context_ok", Json.bool (ps.all (fun p => p.ctxA.all contextItemOK && p.ctxB.all contextItemOK))),
+      ("clean_names", Json.bool (ps.all (fun p => p.evaluations.all (fun e => !reservedCodeNames.contains e.1))))]))),
   ("args", fun j => do
     let k ← parseKind (← getStr j "method")
     let gt ← match j.getObjVal? "gt" with
